@@ -67,9 +67,9 @@ def check_collection(boxes, queries, sequence=None):
             decoy = rtree.Index(list(DECOY))
             index = rtree.Index(list(boxes))
     except core.CaseTimeout:
-        return [("loop", f"{desc}: construction did not return within 10 s", None)], 0
+        return [("loop", f"{desc}: construction did not return within 10 s", None, None)], 0
     except RecursionError:
-        return [("loop", f"{desc}: construction recursed without bound", None)], 0
+        return [("loop", f"{desc}: construction recursed without bound", None, None)], 0
     except Exception as exc:                # pylint: disable=broad-except
         return [("raise", f"{desc} raised {type(exc).__name__}: {exc}", None, None)], 0
     depth = depth_of(index)
